@@ -62,7 +62,10 @@ RULE_ADDED = (
               'ody else while a change is pending on a running manager. '
               ' '
               'Round 17: a uiHeartbeat after which the device is locked in the bootloader, with'
-              ' a PIN change pending; running-manager histories on SGX. ')
+              ' a PIN change pending; running-manager histories on SGX. '
+              ' '
+              "Round 19: one answer of the Ledger change dialogue (a PIN byte's, the change com"
+              "mand's) arriving late, alone and followed by a refusal of the change command. ")
 RULE = RULE + " " + RULE_ADDED.strip()
 ASSUMPTIONS = [
     "simulated device keeps its PIN in a state file written before it acknowledges (its NVM)",
@@ -464,7 +467,8 @@ def classify_lost(step, obs):
                                                   step["fs_fault"])
     plan = step.get("plan") or {}
     for k, f in plan.items():
-        if f[2] and f[0] in ("read_error", "timeout") and acked:
+        # (a late answer is a time-out to the host, of an exchange the device did process)
+        if ((f[2] and f[0] in ("read_error", "timeout")) or f[0] == "late") and acked:
             # which command's answer was lost
             cmds = [e[4] for e in obs["events"] if e[1] == "apdu"]
             cmd = cmds[int(k)] if int(k) < len(cmds) else None
@@ -541,6 +545,30 @@ def gen_histories(spec, tmpdir):
                         {"platform": platform, "force": force, "plan": {str(i): list(o)}},
                         {"platform": platform, "force": force},
                         {"platform": platform}]})
+            if platform == "ledger":
+                # the answer to one exchange of the change dialogue arrives after the host
+                # has given up on it (it is still there when the next answer is read) - alone,
+                # and followed by a device that turns the change down: whatever is read in
+                # whatever order, the file never holds a PIN the device did not take
+                pin_bytes = [i for (i, cmd) in idx if cmd == 0x41]
+                change = [i for (i, cmd) in idx if cmd == 0x08]
+                picks = sorted(set(pin_bytes[:2] + pin_bytes[-2:] +
+                                   rng.sample(pin_bytes, min(2, len(pin_bytes)))))
+                for i in picks + change:
+                    cases.append({"platform": platform, "start": start, "steps": [
+                        {"platform": platform, "force": force,
+                         "plan": {str(i): ["late", None, False]}},
+                        {"platform": platform, "force": force}, {"platform": platform}]})
+                    for j in change:
+                        if j <= i:
+                            continue
+                        for sw in (0x69A0, 0x6A99):
+                            cases.append({"platform": platform, "start": start, "steps": [
+                                {"platform": platform, "force": force,
+                                 "plan": {str(i): ["late", None, False],
+                                          str(j): ["sw", sw, False]}},
+                                {"platform": platform, "force": force},
+                                {"platform": platform}]})
             if platform == "sgx":
                 for rb in (0, 2, 255):
                     cases.append({"platform": platform, "start": start, "steps": [
